@@ -70,7 +70,14 @@ def run(ctx):
             com, src, files, js, fjs, jf, fjf, mode, noout, prog, fileset = c
             return files and (com != src) and not (js and fjs) and mode != "bogus" and prog != "failing" and fileset != "none"
         good = [c for c in combos if valid(c)]
-        combos = rng.sample(good, 170) + rng.sample([c for c in combos if not valid(c)], 110)
+        bad = [c for c in combos if not valid(c)]
+        # every single reason of invalidity against every program kind and file set, with the other flags at their plainest (corners of the cross product)
+        def plain(c):
+            com, src, files, js, fjs, jf, fjf, mode, noout, prog, fileset = c
+            return not jf and not fjf and not noout and not fjs
+        corners = [c for c in bad if plain(c) and ((c[7] == "bogus" and c[0] and not c[1] and c[2]) or (c[7] == "unset" and c[9] == "failing" and c[0] and not c[1] and c[2])
+                                                   or (c[7] == "unset" and not c[2] and c[0] and not c[1]) or (c[7] == "unset" and c[0] and c[1] and c[2]) or (c[7] == "unset" and not c[0] and not c[1] and c[2]))]
+        combos = rng.sample(good, 170) + corners + rng.sample(bad, 110)
     # decisions of the proved model
     def b(x):
         return "t" if x else "f"
